@@ -12,6 +12,7 @@ package streamfilter
 // order, 11 request URLs (two of them on another host whose name starts with the same labels) x 2 methods. The REAL FilterTree.AddFlow / GetFlow run. Labelled bounded: never counted as proved.
 
 import (
+	"fmt"
 	"sort"
 	"strings"
 	"testing"
@@ -139,4 +140,128 @@ func TestBoundedC03LoadOrderAndOwnFilter(t *testing.T) {
 		}
 	}
 	t.Logf("REPLAY bounded: %d selections checked over %d sets of flows in every load order", checked, len(sets))
+}
+
+// Query-parameter constraints: the URL patterns and methods of the test above say nothing about the part of a filter
+// that is decided on the transaction itself (streams/types: the request parses its query lazily and caches it). Small
+// sets of flows on ONE pattern, each with a query constraint or none, every load order; requests whose query carries
+// the wanted pair next to well-formed and malformed sibling pairs (a bare '%', a semicolon, a key without value, a
+// repeated key). Oracle: an independent split of the raw query (pairs that do not decode are no parameters; the first
+// value of a key counts). A flow must be selected exactly when its own constraint is met - also when it is the first
+// flow evaluated on a freshly built transaction - and the selection must not depend on the load order.
+func c03QueryFirst(raw, key string) (string, bool) {
+	for _, pair := range strings.Split(raw, "&") {
+		if pair == "" || strings.Contains(pair, ";") {
+			continue
+		}
+		k, v := pair, ""
+		if i := strings.Index(pair, "="); i >= 0 {
+			k, v = pair[:i], pair[i+1:]
+		}
+		dk, ok1 := c03Unescape(k)
+		dv, ok2 := c03Unescape(v)
+		if !ok1 || !ok2 {
+			continue
+		}
+		if dk == key {
+			return dv, true
+		}
+	}
+	return "", false
+}
+
+func c03Unescape(s string) (string, bool) {
+	var b strings.Builder
+	for i := 0; i < len(s); i++ {
+		switch {
+		case s[i] == '+':
+			b.WriteByte(' ')
+		case s[i] == '%':
+			h := func(c byte) int {
+				switch {
+				case c >= '0' && c <= '9':
+					return int(c - '0')
+				case c >= 'a' && c <= 'f':
+					return int(c-'a') + 10
+				case c >= 'A' && c <= 'F':
+					return int(c-'A') + 10
+				}
+				return -1
+			}
+			if i+2 >= len(s) || h(s[i+1]) < 0 || h(s[i+2]) < 0 {
+				return "", false
+			}
+			b.WriteByte(byte(h(s[i+1])<<4 | h(s[i+2])))
+			i += 2
+		default:
+			b.WriteByte(s[i])
+		}
+	}
+	return b.String(), true
+}
+
+func TestBoundedC03QueryConstraints(t *testing.T) {
+	type qf struct{ key, val string } // key "" = no query constraint
+	filters := []qf{{"", ""}, {"y", "3"}, {"y", "4"}, {"z", "1"}}
+	queries := []string{"", "y=3", "y=4", "z=1", "y=3&z=1", "z=1&y=3", "y=3&note=50%", "note=50%&y=3", "y=3&a;b", "a;b&y=3",
+		"y", "y=", "y=3&y=4", "y=4&y=3", "y=%33", "z=1&note=%zz"}
+	var sets [][]int
+	for i := range filters {
+		sets = append(sets, []int{i})
+		for j := range filters {
+			sets = append(sets, []int{i, j}) // the same constraint twice is a legal configuration
+			for k := j + 1; k < len(filters); k++ {
+				if i < j {
+					sets = append(sets, []int{i, j, k})
+				}
+			}
+		}
+	}
+	checked := 0
+	for _, set := range sets {
+		for _, q := range queries {
+			var first string
+			for pn, perm := range c03Perms(len(set)) {
+				tree := NewFilterTree()
+				want := []string{}
+				for _, pi := range perm {
+					f := filters[set[pi]]
+					name := fmt.Sprintf("Q%d.%d", pi, set[pi])
+					cfg := &stream_config.Filter{Name: name, URL: "a.com/x"}
+					if f.key != "" {
+						cfg.QueryParams = []public_types.KeyValue{{Key: f.key, Value: f.val}}
+					}
+					if err := tree.AddFlow(stream_flow.NewFlow(nil, &stream_config.FlowRepresentation{Name: name, Filter: cfg}, nil)); err != nil {
+						t.Fatalf("REPLAY AddFlow(%+v): %v", f, err)
+					}
+					if v, ok := c03QueryFirst(q, f.key); f.key == "" || (ok && v == f.val) {
+						want = append(want, name)
+					}
+				}
+				s := stream_types.NewAPIStream("n", public_types.StreamTypeRequest, lunar_context.NewMemoryState[[]byte]())
+				s.SetRequest(stream_types.NewRequest(lunar_messages.OnRequest{Method: "GET", Scheme: "https", URL: "a.com/x", Query: q, Headers: map[string]string{}}))
+				s.SetContext(lunar_context.NewLunarContext(lunar_context.NewContext()))
+				res, found := tree.GetFlow(s)
+				names := []string{}
+				if found {
+					uf, _ := res.GetUserFlow()
+					for _, f := range uf {
+						names = append(names, f.GetName())
+					}
+				}
+				sort.Strings(names)
+				sort.Strings(want)
+				if strings.Join(names, ",") != strings.Join(want, ",") {
+					t.Fatalf("REPLAY query constraints %v loaded in order %v, request a.com/x?%s: selected %v, the flows whose own filter accepts it are %v", set, perm, q, names, want)
+				}
+				if pn == 0 {
+					first = strings.Join(names, ",")
+				} else if first != strings.Join(names, ",") {
+					t.Fatalf("REPLAY load order matters: query constraints %v, order %v, request a.com/x?%s", set, perm, q)
+				}
+				checked++
+			}
+		}
+	}
+	t.Logf("REPLAY bounded: %d (set of query-constrained flows, load order, query) selections checked", checked)
 }
